@@ -63,6 +63,22 @@ func customLeaves(fallible bool) []customLeaf {
 			OnlyStruct: true,
 		},
 		{
+			// the converter parameter is passed where it is declared, not necessarily first
+			Name:      "extend_conv_last",
+			Shape:     shape{Src: "PFXA", Tgt: "PFXB", Name: "extconvlast", Decls: []string{base + fmt.Sprintf("func PFXExt(a PFXA, c CNAME) %s { %s }", errRes("PFXB"), ret("0"))}},
+			ConvLines: []string{"extend PFXExt"},
+			Custom:    map[string]string{"PFXA→PFXB": "PFXExt"},
+			OnlyStruct: true,
+		},
+		{
+			Name:      "extend_conv_middle",
+			Shape:     shape{Src: "PFXA", Tgt: "PFXB", Name: "extconvmid", Decls: []string{base + "type PFXCtx struct{ Z int }\n" + fmt.Sprintf("func PFXExt(a PFXA, c CNAME, ctxA PFXCtx) %s { %s }", errRes("PFXB"), ret("0"))}},
+			ConvLines: []string{"arg:context:regex ^ctx", "extend PFXExt"},
+			Custom:    map[string]string{"PFXA→PFXB": "PFXExt"},
+			CtxParam:  "ctxA PFXCtx",
+			OnlyStruct: true,
+		},
+		{
 			Name:      "extend_pkg",
 			Shape:     shape{Src: "PFXA", Tgt: "PFXB", Name: "extpkg", Decls: []string{"type PFXA = pfxext.A\ntype PFXB = pfxext.B\n"}},
 			ConvLines: []string{"extend corpus/GRP/pfxext:Ext"},
@@ -72,8 +88,8 @@ func customLeaves(fallible bool) []customLeaf {
 		},
 		{
 			Name:      "extend_regex",
-			Shape:     shape{Src: "PFXA", Tgt: "PFXB", Name: "extre", Decls: []string{base + fmt.Sprintf("func PFXExtOne(a PFXA) %s { %s }\nfunc PFXExtTwo(a string) %s { %s }\nfunc PFXOther(a PFXA) PFXB { return 1 }", errRes("PFXB"), ret("0"), errRes("bool"), ret("false"))}},
-			ConvLines: []string{"extend PFXExt.*"},
+			Shape:     shape{Src: "PFXA", Tgt: "PFXB", Name: "extre", Decls: []string{base + fmt.Sprintf("func PFXExtOne(a PFXA) %s { %s }\nfunc PFXExtTwo(a string) %s { %s }\nfunc PFXOther(a PFXA) PFXB { return 1 }\nfunc OldPFXExtOne(a PFXA) PFXB { return 2 }\nfunc ZoldPFXExtOne(a PFXA) PFXB { return 4 }\nfunc PFXExtOneOld(a PFXB) PFXA { return 3 }", errRes("PFXB"), ret("0"), errRes("bool"), ret("false"))}},
+			ConvLines: []string{"extend PFXExt(One|Two)"},
 			Custom:    map[string]string{"PFXA→PFXB": "PFXExtOne", "string→bool": "PFXExtTwo"},
 		},
 		{
@@ -184,10 +200,20 @@ func customConv(family string, cl customLeaf, s shape, format string, n int, wra
 		}
 	case "_using":
 		spec.WrapMode = "using"
-		switch n % 2 {
-		case 0:
+		// written on the method where everything is converted inline by that method (generated sub-methods take the
+		// converter-level value), else on the converter or the command line
+		inlineOnly := true
+		for i, part := range strings.Split(s.Name, "_") {
+			if i > 0 && (part == "struct" || part == "rec" || part == "recp") {
+				inlineOnly = false
+			}
+		}
+		switch {
+		case (n/3)%3 == 2 && inlineOnly:
+			cv.MethodLines = append(cv.MethodLines, "wrapErrorsUsing corpus/perr")
+		case (n/3)%2 == 0:
 			cv.ConvLines = append(cv.ConvLines, "wrapErrorsUsing corpus/perr")
-		case 1:
+		default:
 			cv.CLI = append(cv.CLI, "wrapErrorsUsing corpus/perr")
 		}
 	}
@@ -204,6 +230,7 @@ func nestings(g *shapeGen, leaf shape, thorough bool) []shape {
 		{"struct", "ptr"}, {"slice", "slice"}, {"map", "slice"}, {"struct", "struct"}, {"rec", "struct"},
 		{"mapnk", "struct"}, {"struct", "mapnk"}, {"anon", "slice"}, {"slice", "map"}, {"addr", "struct"}, {"struct", "deref"},
 		{"recp"}, {"struct", "recp"}, {"slice", "recp"},
+		{"slice", "anon2f"}, {"struct", "slice", "anon", "anon2f"}, {"map", "anon", "anon2f"}, {"struct", "map", "slice", "anon2f"}, {"slice", "slice", "slice", "anon2f"},
 	}
 	for _, d := range deep {
 		s := leaf
@@ -484,6 +511,32 @@ func declaredMethodConvs() []*Conv {
 					"Title": {Path: []string{"Name"}},
 					"Extra": {Ignore: true},
 				}}}},
+			})
+		}
+	}
+	// useUnderlyingTypeMethods: a declared method on the underlying (unnamed struct) types serves the named pair,
+	// with its own field settings
+	und := "type PFXUA struct {\n\tName string\n\tSecret string\n}\ntype PFXUB struct {\n\tName string\n\tSecret string\n}\n"
+	for _, w := range []struct{ name, src, tgt, extra string }{
+		{"top", "PFXUA", "PFXUB", ""},
+		{"slice", "[]PFXUA", "[]PFXUB", ""},
+		{"field", "PFXUWs", "PFXUWt", "type PFXUWs struct {\n\tOne PFXUA\n\tM map[string]*PFXUA\n}\ntype PFXUWt struct {\n\tOne PFXUB\n\tM map[string]*PFXUB\n}\n"},
+	} {
+		for _, format := range []string{"struct", "function", "variable"} {
+			inner := "\t// goverter:ignore Secret\n\tPFXStrip(source struct {\n\t\tName   string\n\t\tSecret string\n\t}) struct {\n\t\tName   string\n\t\tSecret string\n\t}\n"
+			if format == "variable" {
+				inner = strings.Replace(inner, "PFXStrip(", "PFXStrip func(", 1)
+			}
+			fields := map[string]*FieldSpec{"Secret": {Ignore: true}}
+			out = append(out, &Conv{
+				ID: "custom/declared_underlying/" + w.name + "/" + format, Family: "custom", Format: format, Solo: true,
+				Params: "source " + w.src, Results: w.tgt, Decls: und + w.extra,
+				ConvLines:    []string{"useUnderlyingTypeMethods"},
+				ExtraMethods: inner,
+				Spec: &Spec{Pairs: map[string]*PairSpec{
+					"PFXUA→PFXUB": {Fields: fields},
+					"struct{Name string; Secret string}→struct{Name string; Secret string}": {Fields: fields},
+				}},
 			})
 		}
 	}
